@@ -112,6 +112,15 @@ func (f *faultyCmd) ExpireAt(ctx context.Context, key string, tm time.Time) *red
 	return c
 }
 
+// TxPipelined is ONE seam command (MULTI ... EXEC is applied as a whole or not at all): it can fail before or
+// after its effect, and the process can crash on either side of it.
+func (f *faultyCmd) TxPipelined(ctx context.Context, fn func(redis.Pipeliner) error) ([]redis.Cmder, error) {
+	var cmds []redis.Cmder
+	var err error
+	f.gate("MULTI/EXEC", func() error { cmds, err = f.Cmdable.TxPipelined(ctx, fn); return err }, func(e error) { cmds, err = nil, e })
+	return cmds, err
+}
+
 // ---- environment -----------------------------------------------------------------------------------------
 
 type mSess struct {
